@@ -10,9 +10,9 @@ use std::str::FromStr;
 
 pub fn meta() -> Meta {
     Meta {
-        rule: "events = one string fed to every parsing entry point: Epoch::from_str, Epoch::from_gregorian_str, Epoch::from_format_str(s, fmt), Epoch::from_str_with_format(s, Format), Format::from_str, Format::parse, Duration::from_str, TimeScale/Weekday/MonthName::from_str (the string is used both as input and as format). Expected: outcome is a value or an Err; a panic of any kind (slice boundary, unwrap, todo!, unreachable!, assert, arithmetic overflow under overflow-checks), a step-budget overrun or a sanitizer report is a violation, signature = entry point + normalised panic site. Well-formed ISO text with exactly one field out of range (month 0/13, day 0/32, 30 February, 29 February of a non-leap year, hour 25, minute 60, second 61, UTC offset hours >= 24 or minutes >= 60, day of year 0 or beyond the year in %j formats) must be Err. Generation: grammar-derived valid texts (ISO/RFC3339 with 0-12 fractional digits, Z, offsets, scale suffix; JD/MJD/SEC numeric forms incl. exponents/inf/nan; duration texts and offsets; format strings of 1-18 tokens incl. %w %J %y and '?'; the formatter's own output for random (epoch, format) pairs; scale/weekday/month names) and 1-3 point mutations of them (delete, insert, substitute, truncate, duplicate, long digit runs, huge exponents, multi-byte and digit-like non-ASCII characters, control characters), plus pairs (format string, unrelated input). Non-trivial = mutated or non-ASCII or out-of-range or (format,input) pair; distinct = distinct string hashes among those.",
+        rule: "events = one string fed to every parsing entry point: Epoch::from_str, Epoch::from_gregorian_str, Epoch::from_format_str(s, fmt), Epoch::from_str_with_format(s, Format), Format::from_str, Format::parse, Duration::from_str, TimeScale/Weekday/MonthName::from_str (the string is used both as input and as format). Expected: outcome is a value or an Err; a panic of any kind (slice boundary, unwrap, todo!, unreachable!, assert, arithmetic overflow under overflow-checks), a step-budget overrun or a sanitizer report is a violation, signature = entry point + normalised panic site. Well-formed ISO text with exactly one field out of range (month 0/13, day 0/32, 30 February, 29 February of a non-leap year, hour 25, minute 60, second 61, UTC offset hours >= 24 or minutes >= 60, day of year 0 or beyond the year in %j formats, second 60 on any day / time of day without an inserted leap second) must be Err. Generation: grammar-derived valid texts (ISO/RFC3339 with 0-12 fractional digits, Z, offsets, scale suffix; JD/MJD/SEC numeric forms incl. exponents/inf/nan; duration texts and offsets; format strings of 1-18 tokens incl. %w %J %y and '?'; the formatter's own output for random (epoch, format) pairs; scale/weekday/month names) and 1-3 point mutations of them (delete, insert, substitute, truncate, duplicate, long digit runs, huge exponents, multi-byte and digit-like non-ASCII characters, control characters, prefix + white-space padding at either end, multi-byte look-alikes of signs / digits / separators in first position or in place of a sign), the complete single-edit lattice (every insert / replace / delete position x 33 characters, every white-space-padded prefix) of 26 seed texts covering each grammar, plus pairs (format string, unrelated input). Non-trivial = mutated or non-ASCII or out-of-range or (format,input) pair; distinct = distinct string hashes among those.",
         assumptions: &["the logical step budget (2000 ticks of the hooked loop) bounds 'terminates'; a generous wall-clock watchdog makes a hang inconclusive rather than silent"],
-        mandatory: &["str/valid-iso", "str/mutated", "str/non-ascii", "str/out-of-range-field", "str/numeric-form", "str/duration", "str/format-string", "str/formatter-output", "str/name", "pair/format-input", "str/extreme-year", "outcome/ok", "outcome/err"],
+        mandatory: &["str/valid-iso", "str/mutated", "str/non-ascii", "str/out-of-range-field", "str/numeric-form", "str/duration", "str/format-string", "str/formatter-output", "str/name", "pair/format-input", "str/extreme-year", "str/single-edit", "str/padded-prefix", "outcome/ok", "outcome/err"],
         thorough_scale: 60,
         exhaustive_part: "out-of-range lattice: every field of an ISO text at {0, max+1, 99}, UTC offsets (hours 24/99, minutes 60/99) and day-of-year formats (day 0, year length + 1, 367, 999; hour 25, minute 60, second 61) for 400 base dates",
     }
@@ -107,7 +107,100 @@ fn mutate(r: &mut Rng, s: &str) -> String {
             _ => {}
         }
     }
+    // afterwards, sometimes: keep only a short prefix and / or pad with a run of white space (ASCII or not), at either
+    // end - the parsers trim, and lengths taken before and after trimming differ
+    if r.chance(1, 6) {
+        if r.bool() && !chars.is_empty() {
+            let keep = 1 + r.below(chars.len().min(8) as u64) as usize;
+            chars.truncate(keep);
+        }
+        let ws = *r.pick(&[' ', ' ', ' ', '\t', '\n', '\u{2003}', '\u{a0}', '\u{3000}', '\r']);
+        let nws = 1 + r.below(12) as usize;
+        match r.below(3) {
+            0 => chars.extend(std::iter::repeat(ws).take(nws)),
+            1 => {
+                for _ in 0..nws {
+                    chars.insert(0, ws);
+                }
+            }
+            _ => {
+                chars.extend(std::iter::repeat(ws).take(nws));
+                for _ in 0..1 + r.below(6) {
+                    chars.insert(0, ws);
+                }
+            }
+        }
+    }
+    // sometimes: the first character, or a sign anywhere, becomes a multi-byte look-alike
+    if r.chance(1, 10) && !chars.is_empty() {
+        let c = *r.pick(&LOOKALIKES);
+        let signs: Vec<usize> = chars.iter().enumerate().filter(|(_, c)| **c == '-' || **c == '+').map(|(i, _)| i).collect();
+        if !signs.is_empty() && r.bool() {
+            chars[*r.pick(&signs)] = c;
+        } else if r.bool() {
+            chars[0] = c;
+        } else {
+            chars.insert(0, c);
+        }
+    }
     chars.into_iter().collect()
+}
+
+/// multi-byte characters a lenient sign / digit / separator test might accept: minus and plus look-alikes, dashes,
+/// full-width and other-script digits, non-ASCII white space, combining marks, a 4-byte character
+pub const LOOKALIKES: [char; 24] = [
+    '\u{2212}', '\u{ff0b}', '\u{ff0d}', '\u{2013}', '\u{2014}', '\u{fe63}', '\u{207a}', '\u{207b}', '\u{b1}', '\u{2010}', '\u{ff10}', '\u{ff19}', '\u{663}', '\u{966}', '\u{1d7d8}', '\u{2003}',
+    '\u{a0}', '\u{3000}', '\u{ff1a}', '\u{ff0e}', '\u{301}', '\u{200d}', '\u{3bc}', '\u{1f600}',
+];
+
+/// texts from which the single-edit lattice starts (one per grammar the parsers know)
+pub const EDIT_SEEDS: [&str; 26] = [
+    "2022-03-04T05:06:07.000000008 UTC", "2022-03-04 05:06:07", "2022-03-04T05:06:07+01:30", "2022-03-04T05:06:07.5-00:30 TAI", "2022-03-04", "-0400-03-04T05:06:07 TT", "JD 2451545.0 TAI", "JD 2451545 ET",
+    "MJD 51544.5 UTC", "SEC 66312032.18493909 TDB", "SEC -0.5 GPST", "1 d 2 h 3 min 4 s 5 ms 6 us 7 ns", "-5 h", "+7.25 days", "-01:15:30", "+01:15", "1.5e3 ms", "0 ns", "28 μs", "%Y-%m-%dT%H:%M:%S.%f %T",
+    "%a, %d %b %Y %H:%M:%S", "%Y-%jT%H:%M?:%S? %z", "GPST", "Monday", "January", "Tue",
+];
+
+/// every single-character edit (insert before / replace / delete, and appended at the end) of every seed text with every
+/// look-alike and a few ASCII characters, plus every prefix of every seed padded with white space on either side
+pub fn single_edit_lattice(rep: &mut Rep, shard: usize, n: usize) {
+    let mut i = 0usize;
+    let ascii = ['-', '+', ' ', '0', ':', '.', 'T', '%', '\u{0}'];
+    for seed in EDIT_SEEDS {
+        let chars: Vec<char> = seed.chars().collect();
+        for pos in 0..=chars.len() {
+            i += 1;
+            if i % n != shard {
+                continue;
+            }
+            for c in LOOKALIKES.iter().chain(ascii.iter()) {
+                let mut ins = chars.clone();
+                ins.insert(pos, *c);
+                feed(rep, &ins.iter().collect::<String>(), "%Y-%m-%dT%H:%M:%S", "str/single-edit", true);
+                if pos < chars.len() {
+                    let mut rp = chars.clone();
+                    rp[pos] = *c;
+                    feed(rep, &rp.iter().collect::<String>(), "%Y-%m-%dT%H:%M:%S", "str/single-edit", true);
+                }
+            }
+            if pos < chars.len() {
+                let mut del = chars.clone();
+                del.remove(pos);
+                feed(rep, &del.iter().collect::<String>(), "%Y-%m-%dT%H:%M:%S", "str/single-edit", true);
+            }
+            // prefix of length pos, padded
+            let pre: String = chars[..pos].iter().collect();
+            for pad in [1usize, 2, 3, 4, 5, 6, 7, 8, 16] {
+                for ws in [' ', '\t', '\u{2003}'] {
+                    let w: String = std::iter::repeat(ws).take(pad).collect();
+                    feed(rep, &format!("{pre}{w}"), "%Y-%m-%d", "str/padded-prefix", true);
+                    feed(rep, &format!("{w}{pre}"), "%Y-%m-%d", "str/padded-prefix", true);
+                    if pad <= 3 {
+                        feed(rep, &format!("{w}{pre}{w}"), "%Y-%m-%d", "str/padded-prefix", true);
+                    }
+                }
+            }
+        }
+    }
 }
 
 fn gen_iso(r: &mut Rng) -> String {
@@ -390,6 +483,28 @@ pub fn run(cfg: &Cfg, rep: &mut Rep) {
         for (h, mi, sc, what) in [(25u32, 0u32, 0u32, "hour"), (10, 60, 0, "minute"), (10, 20, 61, "second"), (99, 0, 0, "hour"), (10, 99, 0, "minute")] {
             check_out_of_range_text(rep, &format!("{:04}-{:03}T{:02}:{:02}:{:02}", y, doy, h, mi, sc), Some("%Y-%jT%H:%M:%S"), what);
             check_out_of_range_text(rep, &format!("{:02}:{:02}:{:02} {:03}/{:04}", h, mi, sc, doy, y), Some("%H:%M:%S %j/%Y"), what);
+        }
+    }
+    single_edit_lattice(rep, sh, n);
+    // second 60 in text form: accepted only at 23:59 of a day on which a leap second was inserted (C08's partition)
+    let tab = crate::model::leap::table();
+    for y in 1960..=2030i64 {
+        if (y as usize) % n != sh {
+            continue;
+        }
+        for (m, d) in [(6u32, 30u32), (12, 31), (3, 31), (9, 30), (6, 29), (1, 1)] {
+            for (h, mi) in [(23u32, 59u32), (23, 58), (12, 59), (0, 0)] {
+                let (want, _) = super::c08::classify(&tab, y, m, d, h, mi, 60, 0);
+                if want == super::c08::Want::Reject {
+                    for suffix in ["", " UTC", " TAI", "Z"] {
+                        check_out_of_range(rep, y, m, d, h, mi, 60, suffix, "second 60 without a leap second");
+                    }
+                    check_out_of_range_text(rep, &format!("{:04}-{:03}T{:02}:{:02}:60", y, cal::days_from_1900(y, m, d) - cal::days_from_1900(y, 1, 1) + 1, h, mi), Some("%Y-%jT%H:%M:%S"), "second 60 without a leap second");
+                } else if want == super::c08::Want::Accept {
+                    rep.class("str/real-leap-second");
+                    feed(rep, &format!("{:04}-{:02}-{:02}T23:59:60 UTC", y, m, d), "%Y-%m-%dT%H:%M:%S %T", "str/valid-iso", true);
+                }
+            }
         }
     }
     // extreme years and integer-width boundary fields in otherwise well-formed texts: value or Err, never a panic
